@@ -163,33 +163,43 @@ Lemma close_frame x nfy s :
   glo (close x nfy s) (negb x) = glo s (negb x) /\ e_nq (hn (close x nfy s) x) = e_nq (hn s x).
 Proof. destruct x; split; reflexivity. Qed.
 
-Lemma read_needs_slot c x s : e_alive (cn s x) = true -> can_reserve c x s = false ->
-  let s' := conn_poll c x s in
+Lemma reserve_phase_noslot c x b s : can_reserve c x s = false ->
+  let '(s2, go, b2) := reserve_phase c x b s in
+  go = false /\ glo s2 (negb x) = glo s (negb x) /\ e_nq (hn s2 x) = e_nq (hn s x).
+Proof.
+  intros Hc. unfold reserve_phase. rewrite Hc.
+  assert (E : e_res (ec (gep s x)) = false).
+  { unfold can_reserve in Hc. apply orb_false_iff in Hc. tauto. }
+  rewrite E. cbn [andb]. destruct (0 <? b); repeat split; auto; destruct x; reflexivity.
+Qed.
+
+Lemma read_needs_slot c x b s : e_alive (cn s x) = true -> can_reserve c x s = false ->
+  let s' := conn_poll c x b s in
   carrier (glo s' (negb x)) = carrier (glo s (negb x)) /\ e_nq (hn s' x) = e_nq (hn s x).
 Proof.
   intros Ha Hc. cbn zeta. unfold conn_poll. fold (cn s x). rewrite Ha. cbn [conn_loop]. fold (cn s x).
-  destruct (e_shut (cn s x)); [destruct (close_frame x false s) as [A B]; now rewrite A, B|].
+  destruct (e_shut (cn s x) && (0 <? b)); [destruct (close_frame x false s) as [A B]; now rewrite A, B|].
   destruct (killed s); [destruct (close_frame x true s) as [A B]; now rewrite A, B|].
-  pose proof (out_phase_frame c x s Ha) as F. cbn zeta in F.
-  destruct (out_phase c x s) as [s1 refused]. cbn [fst] in F.
+  pose proof (out_phase_frame c x b s Ha) as F. cbn zeta in F.
+  destruct (out_phase c x b s) as [s1 refused]. cbn [fst] in F.
   destruct F as (_ & _ & _ & _ & _ & Fg & _ & _ & _ & Fn & _ & _ & Fr & _).
   assert (Hc1 : can_reserve c x s1 = false).
   { unfold can_reserve in *. fold (cn s1 x) (hn s1 x). fold (cn s x) (hn s x) in Hc. now rewrite Fr, Fn. }
   destruct refused.
   - destruct (close_frame x true s1) as [A B]. now rewrite A, B, Fg, Fn.
-  - rewrite Hc1. cbn [negb]. replace (glo (set_res x false true s1) (negb x)) with (glo s1 (negb x)) by (destruct x; reflexivity).
-    replace (e_nq (hn (set_res x false true s1) x)) with (e_nq (hn s1 x)) by (destruct x; reflexivity).
-    now rewrite Fg, Fn.
+  - pose proof (reserve_phase_noslot c x (b - (qlen s x - qlen s1 x)) s1 Hc1) as R.
+    destruct (reserve_phase c x _ s1) as [[s2 go] b2]. destruct R as (Eg & G & Q). subst go. cbn [negb].
+    now rewrite G, Q, Fg, Fn.
 Qed.
 
 (* ------------------------------------------------------------------ ForceClose *)
-Lemma conn_poll_kp c x s : killed (conn_poll c x s) = killed s /\ per (conn_poll c x s) = per s.
+Lemma conn_poll_kp c x b s : killed (conn_poll c x b s) = killed s /\ per (conn_poll c x b s) = per s.
 Proof.
   unfold conn_poll. fold (cn s x). destruct (e_alive (cn s x)) eqn:Ea; [|split; reflexivity].
   apply (conn_loop_gen (fun s' => killed s' = killed s /\ per s' = per s)); auto.
   - intros s0 nfy [A B] _. destruct x; cbn; split; assumption.
-  - intros s0 [A B] Ha0 _. pose proof (out_phase_frame c x s0 Ha0) as F. cbn zeta in F.
-    destruct (out_phase c x s0) as [s1 [|]]; cbn [fst] in F; destruct F as (_ & Fk & Fp & _).
+  - intros s0 b0 [A B] Ha0 _. pose proof (out_phase_frame c x b0 s0 Ha0) as F. cbn zeta in F.
+    destruct (out_phase c x b0 s0) as [s1 [|]]; cbn [fst] in F; destruct F as (_ & Fk & Fp & _).
     + destruct x; cbn; split; congruence.
     + split; congruence.
   - intros s0 [A B] _ _. destruct x; cbn; split; assumption.
@@ -197,10 +207,10 @@ Proof.
   - intros s0 n rest [A B] _ _ _ _ _ _. destruct x; cbn; split; assumption.
 Qed.
 
-Lemma kill_closes c z s : killed s = true -> e_alive (cn (conn_poll c z s) z) = false.
+Lemma kill_closes c z b s : killed s = true -> e_alive (cn (conn_poll c z b s) z) = false.
 Proof.
   intros Hk. unfold conn_poll. fold (cn s z). destruct (e_alive (cn s z)) eqn:Ea; [|exact Ea].
-  cbn [conn_loop]. fold (cn s z). destruct (e_shut (cn s z)); [destruct z; reflexivity|].
+  cbn [conn_loop]. fold (cn s z). destruct (e_shut (cn s z) && (0 <? b)); [destruct z; reflexivity|].
   rewrite Hk. destruct z; reflexivity.
 Qed.
 
@@ -215,11 +225,11 @@ Proof.
   - unfold async_poll. destruct (find_w id _) as [w|]; [|cbn; lia].
     destruct (negb (wlive _ w)); [|destruct (w_asg w)]; destruct x; cbn; lia.
   - unfold async_drop. destruct (find_w id _) as [w|]; [|cbn; lia]. destruct x; cbn; lia.
-  - cbn [fst]. destruct (conn_poll_kp c x s) as [_ E]. lia.
+  - cbn [fst]. destruct (conn_poll_kp c x budget s) as [_ E]. lia.
   - unfold h_poll, h_poll_gen. destruct (budget =? 0); [cbn; lia|].
     destruct (e_evs (eh (gep s x))) as [|[k|k] es]; cbn [fst].
     + destruct (h_scan _ _ _ _) as [r q]. destruct r; cbn [fst]; unfold hand_over;
-        match goal with |- context [if ?b then _ else _] => destruct b end; destruct x; cbn; lia.
+        match goal with |- context [if ?g then _ else _] => destruct g end; destruct x; cbn; lia.
     + destruct x; cbn; lia.
     + destruct x; cbn; lia.
   - unfold open_stream. destruct (e_alive _); [cbn; lia|]. destruct (_ <? _); [destruct x; cbn; lia|].
@@ -243,11 +253,11 @@ Proof.
   - unfold async_poll. destruct (find_w id _) as [w|]; [|cbn; auto].
     destruct (negb (wlive _ w)); [|destruct (w_asg w)]; destruct x; cbn; auto.
   - unfold async_drop. destruct (find_w id _) as [w|]; [|cbn; auto]. destruct x; cbn; auto.
-  - cbn [fst]. destruct (conn_poll_kp c x s) as [E _]. congruence.
+  - cbn [fst]. destruct (conn_poll_kp c x budget s) as [E _]. congruence.
   - unfold h_poll, h_poll_gen. destruct (budget =? 0); [cbn; auto|].
     destruct (e_evs (eh (gep s x))) as [|[k|k] es]; cbn [fst].
     + destruct (h_scan _ _ _ _) as [r q]. destruct r; cbn [fst]; unfold hand_over;
-        match goal with |- context [if ?b then _ else _] => destruct b end; destruct x; cbn; auto.
+        match goal with |- context [if ?g then _ else _] => destruct g end; destruct x; cbn; auto.
     + destruct x; cbn; auto.
     + destruct x; cbn; auto.
   - unfold open_stream. destruct (e_alive _); [cbn; auto|]. destruct (_ <? _); [destruct x; cbn; auto|].
@@ -285,9 +295,9 @@ Qed.
 
 (* once the protocol has executed a ForceClose, every later poll of either Connection task of that
    period ends it, whatever else happens in between *)
-Lemma force_close_closes c s x ts z :
+Lemma force_close_closes c s x ts z b :
   e_cmds (hn s x) <> 0 ->
-  let s' := fst (run c s (SCmd x :: ts ++ [SConn z])) in
+  let s' := fst (run c s (SCmd x :: ts ++ [SConn z b])) in
   per s' = per s -> e_alive (cn s' z) = false.
 Proof.
   intros Hc. cbn zeta. cbn [run do_step]. fold (hn s x).
@@ -295,12 +305,12 @@ Proof.
   set (s1 := kill _).
   assert (K1 : killed s1 = true) by reflexivity.
   assert (P1 : per s1 = per s) by (unfold s1; destruct x; reflexivity).
-  pose proof (run_app c ts [SConn z] s1) as RA.
-  destruct (run c s1 (ts ++ [SConn z])) as [s3 vs3]. cbn [fst] in *. subst s3.
+  pose proof (run_app c ts [SConn z b] s1) as RA.
+  destruct (run c s1 (ts ++ [SConn z b])) as [s3 vs3]. cbn [fst] in *. subst s3.
   pose proof (run_per c ts s1) as Q1.
   set (s2 := fst (run c s1 ts)) in *.
   cbn [run do_step fst]. intros Hp.
-  destruct (conn_poll_kp c z s2) as [_ Ep].
+  destruct (conn_poll_kp c z b s2) as [_ Ep].
   apply kill_closes. apply run_killed; [exact K1|]. fold s2. lia.
 Qed.
 
@@ -316,8 +326,8 @@ Proof. intros [a ->] [b ->]. exists (a ++ b). now rewrite run_app. Qed.
 Lemma reach_step c s t : reach c s (fst (do_step c s t)).
 Proof. exists [t]. cbn [run]. destruct (do_step c s t). reflexivity. Qed.
 
-Lemma reach_conn c x s : reach c s (conn_poll c x s).
-Proof. exact (reach_step c s (SConn x)). Qed.
+Lemma reach_conn c x b s : reach c s (conn_poll c x b s).
+Proof. exact (reach_step c s (SConn x b)). Qed.
 
 Lemma reach_apoll c x s id : reach c s (fst (async_poll x s id)).
 Proof.
@@ -353,13 +363,13 @@ Proof. unfold poll_b. destruct (b_woken c s); [apply reach_conn|apply reach_refl
 Lemma reach_rounds c : forall fuel s, reach c s (rounds fuel c s).
 Proof.
   induction fuel as [|f IH]; intros s; cbn [rounds]; [apply reach_refl|].
-  pose proof (reach_conn c true s) as R1. set (s1 := conn_poll c true s) in *.
+  pose proof (reach_conn c true BIG s) as R1. set (s1 := conn_poll c true BIG s) in *.
   pose proof (reach_poll_woken c true s1) as R2. destruct (poll_woken true s1) as [s2 prog]. cbn [fst] in R2.
   pose proof (reach_poll_b c s2) as R3. set (s3 := poll_b c s2) in *.
   assert (R : reach c s s3) by (eapply reach_trans; [exact R1|eapply reach_trans; [exact R2|exact R3]]).
   destruct prog; [eapply reach_trans; [exact R|apply IH]|].
   destruct (_ && _); [|exact R].
-  eapply reach_trans; [exact R|]. eapply reach_trans; [apply (reach_conn c true)|apply reach_poll_woken].
+  eapply reach_trans; [exact R|]. eapply reach_trans; [apply (reach_conn c true BIG)|apply reach_poll_woken].
 Qed.
 
 Lemma reach_settle c s : reach c s (settle c s).
@@ -453,8 +463,8 @@ Qed.
 Definition refute_cfg : cfg := mkCfg (mkEC 2 2 4 2 64) (mkEC 2 2 4 2 64).
 Definition refute_steps : list step :=
   [SOpen true; SOpen false; SHandle true 128; SHandle false 128;
-   SSync true 7 8; SConn true; SConn false;          (* the notification reaches B's channel *)
-   SClose false; SConn false; SConn true;             (* both Connections of stream 1 end *)
+   SSync true 7 8; SConn true BIG; SConn false BIG;          (* the notification reaches B's channel *)
+   SClose false; SConn false BIG; SConn true BIG;             (* both Connections of stream 1 end *)
    SOpen true; SOpen false;                           (* stream 2 *)
    SHandle false 128; SHandle false 128].             (* B's user sees Closed, Opened 2 *)
 
